@@ -402,6 +402,10 @@ def layer_b_cases(tier, seed):
     cfg_c = dict(base, container='float', rfi_min=30.0, n_pop=cfg_a['n_pop'])
     for seq in ([cfg_a, cfg_b, cfg_a], [cfg_b, cfg_a, cfg_c], [cfg_c, cfg_b]):
         yield dict(kind='B-sequence', cfgs=seq, stream=streams[0])
+    # large bead files stored population after population (or the other way round): 6400 and 9600 events, not in random order
+    for order in ('sorted', 'reversed', 'interleaved'):
+        for (npop, nev) in ((8, 800), (8, 1200)):
+            yield dict(kind='B', cfg=dict(base, n_pop=npop, n_events=nev, order=order, container='float', decades=6), stream=streams[0])
     # floating-point files that declare a range of 2**24 (the display then has more than 4.5 decades), with dim but well resolved beads
     for v in (50.0, 80.0, 150.0):
         for sat in (None, 'two-brightest'):
@@ -428,7 +432,7 @@ def spec_of(cfg, stream):
              'decreasing': [int(round(800 - 600.0 * j / (k - 1))) for j in range(k)]}[cfg.get('sizes', 'equal')]
     spec = dict(DEFAULT, n_pop=cfg['n_pop'], ratio=cfg['ratio'], cv=cfg['cv'], n_events=sizes, laws=laws,
                 blank=cfg['blank'], saturated=cfg['saturated'], container=cfg['container'], stream=stream, decades=cfg.get('decades', 5),
-                rfi_min=cfg.get('rfi_min', 3.0), frange=cfg.get('frange', 262144))
+                rfi_min=cfg.get('rfi_min', 3.0), frange=cfg.get('frange', 262144), order=cfg.get('order', 'shuffled'))
     if cfg['auto'] == 'some' or cfg['blank']:
         laws2 = []
         for (m, b, a) in laws:
@@ -466,9 +470,13 @@ def run_b(c, res, one_case=None):
     if s is None:
         return
     # reproducible for a fixed random seed
-    with warnings.catch_warnings():
-        warnings.simplefilter('ignore')
-        out2 = run_pipeline(d, truth, mef_given, mef_channels, cl, cfg['statistic'], seed=stream)
+    try:
+        with warnings.catch_warnings():
+            warnings.simplefilter('ignore')
+            out2 = run_pipeline(d, truth, mef_given, mef_channels, cl, cfg['statistic'], seed=stream)
+    except Exception as e:
+        res.violation('B:second-run-raises:%s' % type(e).__name__, '%s: the same calibration a second time raised %s: %s' % (what, type(e).__name__, e), one)
+        return
     if not np.array_equal(np.asarray(out.clustering['labels']), np.asarray(out2.clustering['labels'])) or \
             any(not np.array_equal(np.asarray(a), np.asarray(b)) for a, b in zip(out.fitting['beads_params'], out2.fitting['beads_params'])):
         res.violation('B:not-reproducible', '%s: two runs with the same random seed differ' % what, one)
@@ -477,9 +485,13 @@ def run_b(c, res, one_case=None):
     spec2 = dict(spec, order='reversed')
     d2, truth2 = load(spec2, 'b2')
     truth2['laws'] = spec['laws']
-    with warnings.catch_warnings():
-        warnings.simplefilter('ignore')
-        out3 = run_pipeline(d2, truth2, mef_given, mef_channels, cl, cfg['statistic'], seed=stream + 77)
+    try:
+        with warnings.catch_warnings():
+            warnings.simplefilter('ignore')
+            out3 = run_pipeline(d2, truth2, mef_given, mef_channels, cl, cfg['statistic'], seed=stream + 77)
+    except Exception as e:
+        res.violation('B:reordered-raises:%s' % type(e).__name__, '%s: with the events in reversed order the calibration raised %s: %s' % (what, type(e).__name__, e), one)
+        return
     s3 = judge(res, 'B:reordered', what + ' [events reversed]', d2, truth2, out3, mef_given, mef_channels, cfg['statistic'], one, check_partition=True, cluster=cfg['cluster'], sizes=cfg.get('sizes', 'equal'))
     if s3 is None:
         return
